@@ -34,6 +34,29 @@ def readArchive (img : Bytes) : Except String Archive :=
           | .error e => .error e
           | .ok top => .ok { top, dataArea := (img.drop 32).take ofs }
 
+/-- the same checks for an archive file that may carry bytes behind the next header (py7zr never
+    truncates the file it appends to, so a header shorter than its predecessor leaves a tail):
+    the header must lie inside the file, everything else is as strict as `readArchive` -/
+def readArchiveTail (img : Bytes) : Except String Archive :=
+  if img.length < 32 then .error "shorter than a signature header"
+  else if img.take 6 ≠ magic then .error "bad magic"
+  else
+    let startCrc := ofLE ((img.drop 8).take 4)
+    let fields := (img.drop 12).take 20
+    if crc32 fields ≠ startCrc then .error "start header CRC mismatch"
+    else
+      let ofs := ofLE (fields.take 8)
+      let size := ofLE ((fields.drop 8).take 8)
+      let crc := ofLE ((fields.drop 16).take 4)
+      if 32 + ofs + size > img.length then .error "next header lies outside the file"
+      else
+        let hdr := (img.drop (32 + ofs)).take size
+        if crc32 hdr ≠ crc then .error "next header CRC mismatch"
+        else
+          match readTop hdr with
+          | .error e => .error e
+          | .ok top => .ok { top, dataArea := (img.drop 32).take ofs }
+
 /-- "packed sizes tile the data area exactly" -/
 def tilesExactly (s : SStreams) (area : Bytes) : Bool :=
   match s.pack with
